@@ -362,3 +362,66 @@ func init() {
 		return miniSprintf(f, va), true
 	}
 }
+
+// ---- strings.Builder (its real methods use unsafe/abi tricks) ----
+
+func builderBuf(v value) (structure, []value) {
+	st := (*v.(*value)).(structure)
+	buf, _ := st[1].([]value)
+	return st, buf
+}
+
+func init() {
+	nilErr := iface{}
+	sb := "(*strings.Builder)."
+	externals[sb+"WriteString"] = func(fr *frame, args []value) value {
+		st, buf := builderBuf(args[0])
+		s := byteCells(args[1])
+		st[1] = append(buf, s...)
+		return tuple{len(s), nilErr}
+	}
+	externals[sb+"Write"] = func(fr *frame, args []value) value {
+		st, buf := builderBuf(args[0])
+		s := args[1].([]value)
+		st[1] = append(buf, s...)
+		return tuple{len(s), nilErr}
+	}
+	externals[sb+"WriteByte"] = func(fr *frame, args []value) value {
+		st, buf := builderBuf(args[0])
+		st[1] = append(buf, args[1])
+		return nilErr
+	}
+	externals[sb+"WriteRune"] = func(fr *frame, args []value) value {
+		st, buf := builderBuf(args[0])
+		var enc []value
+		if sr, ok := args[1].(sym); ok {
+			enc = symRuneEncode(sr)
+		} else {
+			for _, c := range []byte(string(rune(asInt64(args[1])))) {
+				enc = append(enc, c)
+			}
+		}
+		st[1] = append(buf, enc...)
+		return tuple{len(enc), nilErr}
+	}
+	externals[sb+"String"] = func(fr *frame, args []value) value {
+		_, buf := builderBuf(args[0])
+		cp := make(symstr, len(buf))
+		copy(cp, buf)
+		return normStr(cp)
+	}
+	externals[sb+"Len"] = func(fr *frame, args []value) value {
+		_, buf := builderBuf(args[0])
+		return len(buf)
+	}
+	externals[sb+"Cap"] = func(fr *frame, args []value) value {
+		_, buf := builderBuf(args[0])
+		return cap(buf)
+	}
+	externals[sb+"Grow"] = func(fr *frame, args []value) value { return nil }
+	externals[sb+"Reset"] = func(fr *frame, args []value) value {
+		st, _ := builderBuf(args[0])
+		st[1] = []value(nil)
+		return nil
+	}
+}
